@@ -130,6 +130,22 @@ META.update({
         note="bool is outside the stated value set (written as i:True): recorded as assumption, not claimed." + B_NOTE,
         technique="bounded check of set/write/parse round trip against the grammar oracle",
         assumptions=["value pool of bounded/c20.py", "bool values excluded"]),
+    "C06": dict(
+        built=True, bounded=True, level="exploration", tierP=False, min_obligations=0, design="§6 C06",
+        claim=("BOUNDED: GFA1 graphs with known lengths (every orientation pair x segment pairs incl. self-links x 8 CIGARs incl. asymmetric and full-length ones, named/unnamed links, containments at offset "
+               "0/1/flush right, chains with forward/reverse/two-segment/single-segment paths): to_gfa2() output is valid at vlevel 3, segments keep length/sequence/tags, every E line has the oracle "
+               "coordinates ($ exactly at a segment end) and the same alignment, paths visit the same oriented segments, and to_gfa1() of the result equals the original modulo assigned IDs/LN."),
+        note="A link whose overlap covers a whole segment is indistinguishable from a containment in GFA2: its round trip is not pinned. Oracle coordinates: bounded/c06.py from the GFA specifications." + B_NOTE,
+        technique="bounded check of the conversion contracts against an independent coordinate oracle (the arithmetic kernels are being brought under PyVC contract)",
+        assumptions=["graphs of bounded/c06.py"]),
+    "C12": dict(
+        built=True, bounded=True, level="exploration", tierP=False, min_obligations=0, design="§6 C12",
+        claim=("BOUNDED: every orientation pair x (distinct segments | self-link) x CIGAR pool over M,I,D,P,=,X,H: complement fields vs the independent oracle, receiver unchanged, involution, exchange of "
+               "reference/query lengths, symmetric and repeatable equivalence tests, equal hashes, is_eql iff same canonical edge; graph level: adding the complement adds nothing and raises nothing, "
+               "_search_link finds the stored link from both forms, a different link is a different edge, paths in both directions resolve to the stored link with the right direction."),
+        note="S and N operations are outside the claim (folded by the complement)." + B_NOTE,
+        technique="bounded check of the link/CIGAR contracts against an independent complement oracle (the algebraic laws are being brought under PyVC contract)",
+        assumptions=["CIGAR pool of bounded/c12.py"]),
 })
 
 NOT_BUILT_REASON = "check not built yet at this commit (work in progress; see DESIGN.md §7 priorities)"
